@@ -8,6 +8,7 @@
 import Driver.Util
 import JanetModel.Spec.Emit
 import JanetModel.Spec.CallSite
+import JanetModel.Spec.FixedEmit
 open Driver JanetModel.Spec JanetModel.Gen.Cfuns JanetModel.Gen.Bytecode JanetModel.Bytecode.VM
 
 def dropFirst (s : String) (k : Nat) : String := String.ofList (s.toList.drop k)
@@ -112,4 +113,37 @@ def handleCall (toks : List String) : Option String :=
     | none => some "bad-request"
   | _ => none
 
-def main : IO Unit := runLoop () (fun s toks => (s, (handleCall toks).getD (handle toks)))
+/-! ### fixed-arity specialisations: the instruction list `Spec.emitShape` gives for a call with its operands in registers 0..n-1,
+     target register n (`alias`: the last operand is in register n too), scratch register n + 1 -/
+
+/-- operands of an instruction as `disasm` prints them, by operand layout -/
+def instrFields (i : Instr) : List Int :=
+  match Op.itype i.op with
+  | .s => [i.D]
+  | .l => [i.DS]
+  | .ss | .su | .st | .sc | .sd => [i.A, i.E]
+  | .sl | .si => [(i.A : Int), i.ES]
+  | .sss | .ssu | .ses => [i.A, i.B, i.C]
+  | .ssi => [(i.A : Int), (i.B : Int), i.CS]
+  | .none_ => []
+
+def showInstr (i : Instr) : String := ":".intercalate (i.op.cName :: (instrFields i).map toString)
+
+def handleFixed (toks : List String) : Option String :=
+  match toks with
+  | ["fixed", tag, mode, ns] =>
+    match optimizers.find? (fun r => r.tagName == tag), ns.toNat? with
+    | some r, some n =>
+      match shapeOf r with
+      | some sh =>
+        if !guardOk r.guard n then some "not-admitted" else
+        -- alias: the last operand lives in register n (a variable initialised from parameter n-1), which is also the target
+        let regs := if mode == "alias" then List.range (n - 1) ++ [n] else List.range n
+        match emitShape sh n regs (n + 1) with
+        | some seg => some ("ops=" ++ ",".intercalate (seg.map showInstr))
+        | none => some "no-emit-model"
+      | none => some "no-shape"
+    | _, _ => some "bad-request"
+  | _ => none
+
+def main : IO Unit := runLoop () (fun s toks => (s, (handleFixed toks).getD ((handleCall toks).getD (handle toks))))
